@@ -42,6 +42,12 @@ AddrZeroInst ==
      I("addr0:plain", "E", Bin("E.Equal", va, vb)),
      I("addr0:paren", "E", Bin("E.Equal", Paren(Zero), va)),
      I("addr0:hex", "E", Bin("E.Equal", va, AddrOf(Hex("0x0")))),
+     I("addr0:hex-small", "E", Bin("E.NotEqual", va, AddrOf(Hex("0x01")))),
+     I("addr0:hex-dead", "E", Bin("E.Equal", AddrOf(Hex("0x000000000000000000000000000000000000dEaD")), va)),
+     I("addr0:hex-20-bytes", "E", Bin("E.Equal", va, AddrOf(Hex("0xEeeeeEeeeEeEeeEeEeEeeEEEeeeeEeeeeeeeEEeE")))),
+     I("addr0:hex-65-bits", "E", Bin("E.NotEqual", va, AddrOf(Hex("0x10000000000000000")))),
+     I("addr0:big-decimal", "E", Bin("E.Equal", va, AddrOf(Num("18446744073709551616")))),
+     I("addr0:payable-one", "E", Bin("E.Equal", va, Call(Ty("payable", 0), <<Num("1")>>))),
      I("addr0:noargs", "E", Bin("E.Equal", va, Call(Ty("address", 0), <<>>))),
      I("addr0:lt", "E", Bin("E.Less", va, Zero))}
 
